@@ -14,7 +14,7 @@ T_QUICK, T_THOROUGH = 70, 1500
 FLOORS = {"dest:same-buffer": 1500, "dest:other-buffer": 1500, "dest:other-context": 1500, "copies_with_refs": 1500,
           "isolation_writes": 20000, "referent_checks": 1500, "seen:ar1sS": 100, "hybrid_copies": 800,
           "hybrid_referent_checks": 500, "second_copies": 3000, "source_buffers_overwritten": 3000,
-          "big_copies": 100}
+          "big_copies": 100, "copies_from_rebuilt_views": 3000}
 RULE = ("random type AST (references at any depth) x value x placement; T(obj, _buffer=same | other buffer of the "
         "context | _context=other); oracle: copy re-reads equal to the model; bytes written by the copy lie in "
         "allocations made during the copy and are disjoint from the original's extent; every reference in the copy "
@@ -69,6 +69,10 @@ def run_case(w, rng):
         except Exception as e:
             w.violation(f"construct-{exc_kind(e)}", f"{type(e).__name__}: {e}", c.info)
             return
+        if t["k"] in ("st", "ar") and rng.random() < 0.4:
+            # the source is a view rebuilt from buffer and offset (how nested parts and reference targets are seen)
+            src = c.cls._from_buffer(src._buffer, src._offset)
+            w.count("copies_from_rebuilt_views")
         if dest == "same-buffer":
             denv = env
         elif dest == "other-buffer":
